@@ -260,6 +260,16 @@ def rekey_history(ctx, w, d, id_attr, order, desc, rng):
 			ctx.seen('load_error_types', f'rekeyed-without-signature:{type(e).__name__}')
 		else:
 			ctx.violation('incomplete-database-loaded:rekeyed-without-signature', f'third build: genome {ga.key} has {id_attr}={gone!r}, no signature carries that identifier, yet a database with {len(db3.genomes)} genomes was built', desc)
+		# fourth build, after the refused one, from the same genome-set object AND the same open signature file: the identifier is put
+		# back, the database is valid again and must be paired and answer exactly like the second one (a refused build leaves nothing behind)
+		setattr(ga, id_attr, vb); session.commit()
+		try:
+			db4 = ReferenceDatabase(gset, sigs)
+		except Exception as e:
+			ctx.violation('valid-database-refused', f'build after a refused build (identifier restored) raised {type(e).__name__}: {e}', desc)
+			return
+		ctx.count('databases_built_after_a_refused_build_from_the_same_objects')
+		check_loaded(ctx, w2, db4, id_attr, order, dict(desc, build=4, history=desc['history'] + ', re-key one genome to an identifier without signature (build refused), restore it, build again'))
 	finally:
 		sigs.close()
 		session.close()
@@ -563,7 +573,7 @@ def finalize(merged, tier, seed, inconclusive):
 	c = merged['counters']
 	need = [f'id_attr:{a}' for a in ID_ATTRS] + ['order:random', 'order:reversed', 'with_unrelated_signatures', 'negative:dropped-signature', 'negative:renamed-id',
 	        'negative:id_attr-none', 'negative:id_attr-attribute-absent', 'negative:id_attr-misspelt', 'negative:null-id-column', 'negative:ids-of-wrong-kind', 'negative:dir:two-gdb', 'negative:dir:no-signature-file',
-	        'directory_ok:db+h5', 'cli_commands', 'big_databases', 'interleaved_queries_on_one_database', 'negative:near-miss-id', 'look_alike_identifier_pairs', 'databases_built_for_one_of_two_genome_sets', 'databases_rebuilt_from_one_genome_set_after_identifier_edit', 'negative:rekeyed-to-identifier-without-signature']
+	        'directory_ok:db+h5', 'cli_commands', 'big_databases', 'interleaved_queries_on_one_database', 'negative:near-miss-id', 'look_alike_identifier_pairs', 'databases_built_for_one_of_two_genome_sets', 'databases_rebuilt_from_one_genome_set_after_identifier_edit', 'negative:rekeyed-to-identifier-without-signature', 'databases_built_after_a_refused_build_from_the_same_objects']
 	for n in need:
 		if c.get(n, 0) == 0:
 			inconclusive.append(f'class never observed: {n}')
